@@ -412,6 +412,29 @@ func (c *ordCtx) sortedBeforeUse(rs *ast.RangeStmt, slice types.Object) (string,
 								return true
 							case "sort.Slice", "sort.SliceStable", "slices.SortFunc", "slices.SortStableFunc":
 								res, found = "custom", true
+								// declarations taken out of a map keyed by their ID have pairwise distinct IDs: a comparator that
+								// orders every two declarations with different IDs is a total order on them
+								if t := info.TypeOf(call.Args[0]); t != nil && strings.HasSuffix(t.String(), "generator.Declaration") && len(call.Args) == 2 {
+									if mt, ok := info.TypeOf(rs.X).Underlying().(*types.Map); ok && isStringType(mt.Key()) && keyedByID(info, c.fd, rs.X) {
+										if fiHere := c.w.Funcs[info.Defs[c.fd.Name].(*types.Func)]; fiHere != nil {
+											if fl := comparatorLit(info, fiHere, call.Args[1]); fl != nil {
+												if tab, err := comparatorTable(info, es(call.Args[0]), fl); err == "" {
+													total := true
+													for _, a := range absDomain {
+														for _, b := range absDomain {
+															if a.id != b.id && tab[[2]absDecl{a, b}] == tab[[2]absDecl{b, a}] {
+																total = false
+															}
+														}
+													}
+													if total {
+														res = "a comparator that orders any two declarations with different IDs (the map holds one declaration per ID)"
+													}
+												}
+											}
+										}
+									}
+								}
 								return true
 							}
 						}
@@ -428,6 +451,28 @@ func (c *ordCtx) sortedBeforeUse(rs *ast.RangeStmt, slice types.Object) (string,
 		return "", false
 	}
 	return res, found
+}
+
+// keyedByID: every store into the map m inside fd has the form m[x.ID] = x.
+func keyedByID(info *types.Info, fd *ast.FuncDecl, m ast.Expr) bool {
+	n, ok := 0, true
+	ast.Inspect(fd, func(x ast.Node) bool {
+		as, isAs := x.(*ast.AssignStmt)
+		if !isAs || len(as.Lhs) != 1 || len(as.Rhs) != 1 {
+			return true
+		}
+		ix, isIx := ast.Unparen(as.Lhs[0]).(*ast.IndexExpr)
+		if !isIx || es(ix.X) != es(m) {
+			return true
+		}
+		n++
+		sel, isSel := ast.Unparen(ix.Index).(*ast.SelectorExpr)
+		if !isSel || sel.Sel.Name != "ID" {
+			ok = false
+		}
+		return true
+	})
+	return n > 0 && ok
 }
 
 // justifiedORD: map loops whose order-insensitivity needs a non-local argument. key: function|range expr.
